@@ -28,6 +28,8 @@ pub struct C08 {
     unit_texts: Vec<(String, String)>,
     /// (name, expression text) of every quantity line of the bundled files
     quantity_texts: Vec<(String, String)>,
+    /// (substance, index of the property in its block) for every property of every substance block
+    substance_props: Vec<(String, usize)>,
     ctxs: [Lazy<Context>; 2],
 }
 
@@ -70,7 +72,18 @@ impl C08 {
         let mut quantity_texts = quantity_lines(rink_core::DEFAULT_FILE.unwrap());
         quantity_texts.extend(quantity_lines(rink_core::CURRENCY_FILE.unwrap()));
         fams.add("quantity definitions evaluated by an own dimensional evaluator", vec![2, quantity_texts.len() as u64]);
-        C08 { fams, names, prefix_defs, unit_texts, quantity_texts, ctxs: [Lazy::new(), Lazy::new()] }
+        let mut substance_props = vec![];
+        for text in [rink_core::DEFAULT_FILE.unwrap(), rink_core::CURRENCY_FILE.unwrap()] {
+            for e in rink_core::loader::gnu_units::parse_str(text).defs {
+                if let rink_core::ast::Def::Substance { ref properties, .. } = *e.def {
+                    for i in 0..properties.len() {
+                        substance_props.push((e.name.clone(), i));
+                    }
+                }
+            }
+        }
+        fams.add("substance properties re-evaluated with the block's earlier names bound by the harness", vec![2, substance_props.len() as u64]);
+        C08 { fams, names, prefix_defs, unit_texts, quantity_texts, substance_props, ctxs: [Lazy::new(), Lazy::new()] }
     }
 }
 
@@ -207,6 +220,29 @@ fn quantity_expr_dims(e: &Expr, q: &std::collections::BTreeMap<String, Dims>, r:
     }
 }
 
+/// `e` with every bare name that is bound in `temps` replaced by its value (constant x base units).
+fn substitute(e: &Expr, temps: &std::collections::BTreeMap<String, rink_core::types::Number>) -> Expr {
+    use rink_core::ast::{BinOpExpr, UnaryOpExpr};
+    match e {
+        Expr::Unit { name } => match temps.get(name) {
+            Some(n) => {
+                let mut parts = vec![Expr::new_const(n.value.clone())];
+                for (b, p) in n.unit.iter() {
+                    parts.push(Expr::new_pow(Expr::new_unit(b.to_string()), Expr::new_const(rink_core::types::Numeric::from(*p))));
+                }
+                Expr::new_mul(parts)
+            }
+            None => e.clone(),
+        },
+        Expr::BinOp(BinOpExpr { op, left, right }) => Expr::new_bin(*op, substitute(left, temps), substitute(right, temps)),
+        Expr::UnaryOp(UnaryOpExpr { op, expr }) => Expr::new_unary(op.clone(), substitute(expr, temps)),
+        Expr::Mul { exprs } => Expr::new_mul(exprs.iter().map(|x| substitute(x, temps)).collect()),
+        Expr::Call { func, args } => Expr::new_call(*func, args.iter().map(|x| substitute(x, temps)).collect()),
+        Expr::Of { property, expr } => Expr::new_of(property, substitute(expr, temps)),
+        other => other.clone(),
+    }
+}
+
 fn cfg_name(c: u64) -> &'static str {
     if c == 0 {
         "bundled"
@@ -220,7 +256,7 @@ impl Space for C08 {
         Meta {
             id: "C08",
             level: "exploration",
-            rule: "every name of the loaded registry (all units and all stored definitions), in both configurations (bundled definitions; bundled + currency.units + currency snapshot): the stored value equals Context::eval of the stored definition, its dimensionality uses declared base units only, alias chains end at a real definition; plus every prefix line of the bundled files (text re-read with rink's parser, evaluated by the runtime evaluator in the loaded context, compared with the prefix table and, for long prefixes, with the unit of the same name); plus every quantity line `name ? expr`: the stored dimensionality must be the one an own exponent-vector evaluation of the expression over the loaded quantity table gives; plus eight whole-database checks (silent error-free load with fd 1 captured, identical Debug dumps of two loads, quantity injectivity, doc/category ownership, no temporaries, prefix table, overlay loaded after the context has been queried). Non-trivial = the name exists in that configuration; distinct by (config, name/check)".into(),
+            rule: "every name of the loaded registry (all units and all stored definitions), in both configurations (bundled definitions; bundled + currency.units + currency snapshot): the stored value equals Context::eval of the stored definition, its dimensionality uses declared base units only, alias chains end at a real definition; plus every prefix line of the bundled files (text re-read with rink's parser, evaluated by the runtime evaluator in the loaded context, compared with the prefix table and, for long prefixes, with the unit of the same name); plus every quantity line `name ? expr`: the stored dimensionality must be the one an own exponent-vector evaluation of the expression over the loaded quantity table gives; plus every property of every substance block re-evaluated with the block's earlier names bound by the harness from the stored values (the loader binds them through a scratch map); plus eight whole-database checks (silent error-free load with fd 1 captured, identical Debug dumps of two loads, quantity injectivity, doc/category ownership, no temporaries, prefix table, overlay loaded after the context has been queried). Non-trivial = the name exists in that configuration; distinct by (config, name/check)".into(),
             assumptions: vec!["`Debug` output of Registry shows every field (derive(Debug))".into()],
             exhaustive: true,
             extra: json!({"families": self.fams.summary(), "whole_database_checks": GLOBAL}),
@@ -233,6 +269,9 @@ impl Space for C08 {
         let (f, d) = self.fams.locate(idx);
         if f == 0 {
             format!("{}: {}", cfg_name(d[0]), GLOBAL[d[1] as usize])
+        } else if f == 5 {
+            let (n, i) = &self.substance_props[d[1] as usize];
+            format!("{}: substance `{}` property #{}", cfg_name(d[0]), n, i)
         } else if f == 4 {
             let (n, r) = &self.quantity_texts[d[1] as usize];
             format!("{}: quantity `{} ? {}`", cfg_name(d[0]), n, r)
@@ -362,6 +401,75 @@ impl Space for C08 {
                             out = out.viol("duplicate prefix", p.clone());
                         }
                     }
+                }
+            }
+            return out;
+        }
+        if f == 5 {
+            // Inside a substance block the names of earlier properties are bound: `name` to
+            // input/output, `input_name` to the input when the output is 1, `output_name` to the
+            // output when the input is 1, in this order (a later binding of the same name wins).
+            // The harness binds them itself - from the *stored* earlier properties - by
+            // substituting them into the property's expressions, and re-evaluates.
+            let (sname, pi) = &self.substance_props[d[1] as usize];
+            let ctx = self.ctxs[c as usize].get(|| load(c).0);
+            let r = &ctx.registry;
+            let mut out = CaseOut::ok("substance property fixed point").key(key);
+            let stored = match r.substances.get(sname) {
+                Some(s) => s,
+                None => {
+                    out.outcome = "substance not in this configuration".into();
+                    return out;
+                }
+            };
+            // the block as parsed (rink's parser; the evaluation below is what is being compared)
+            let mut block = None;
+            for text in [rink_core::DEFAULT_FILE.unwrap(), rink_core::CURRENCY_FILE.unwrap()] {
+                for e in rink_core::loader::gnu_units::parse_str(text).defs {
+                    if &e.name == sname {
+                        if let rink_core::ast::Def::Substance { ref properties, .. } = *e.def {
+                            block = Some(properties.iter().map(|p| (p.name.clone(), p.input.0.clone(), p.input_name.clone(), p.output.0.clone(), p.output_name.clone())).collect::<Vec<_>>());
+                        }
+                    }
+                }
+            }
+            let block = match block {
+                Some(b) => b,
+                None => return out.viol("harness: substance block not found", sname.clone()),
+            };
+            let mut temps: std::collections::BTreeMap<String, rink_core::types::Number> = Default::default();
+            for (name, _, iname, _, oname) in block.iter().take(*pi) {
+                if let Some(sp) = stored.properties.properties.get(name) {
+                    if let Some(ratio) = &sp.input / &sp.output {
+                        temps.insert(name.clone(), ratio);
+                    }
+                    if sp.output == rink_core::types::Number::one() {
+                        temps.insert(iname.clone(), sp.input.clone());
+                    }
+                    if sp.input == rink_core::types::Number::one() {
+                        temps.insert(oname.clone(), sp.output.clone());
+                    }
+                }
+            }
+            let (name, input, _, output, _) = &block[*pi];
+            let sp = match stored.properties.properties.get(name) {
+                Some(p) => p,
+                None => return out.viol("property of the bundled file is not stored", format!("{}.{}", sname, name)),
+            };
+            for (what, expr, have) in [("input", input, &sp.input), ("output", output, &sp.output)] {
+                let bound = substitute(expr, &temps);
+                match ctx.eval(&bound) {
+                    Ok(Value::Number(n)) => {
+                        let same = n == *have || (numeric_to_rat(&n.value).is_none() && n.unit == have.unit && (n.value.to_f64() - have.value.to_f64()).abs() <= 1e-12 * have.value.to_f64().abs());
+                        if !same {
+                            out = out.viol(
+                                "stored substance property differs from what its definition evaluates to",
+                                format!("{}.{} {}: `{}` evaluates to {:?} but {:?} is stored", sname, name, what, expr, n, have),
+                            );
+                        }
+                    }
+                    Ok(o) => out = out.viol("substance property is not a number", format!("{}.{} {} -> {:?}", sname, name, what, o)),
+                    Err(e) => out.outcome = format!("substance property not evaluable by the harness ({})", err_kind(&e)),
                 }
             }
             return out;
